@@ -30,12 +30,13 @@ def params_of(sig):
         if ch == "," and depth == 0: out.append(cur); cur = ""
         else: cur += ch
     if cur.strip(): out.append(cur)
-    names = []
+    names, recv = [], None
     for p in out:
         p = p.strip()
-        if p in ("&self", "self", "&mut self", "mut self"): return None
+        if p in ("&self", "self"): recv = p; continue
+        if p in ("&mut self", "mut self"): return None
         names.append(re.sub(r"^mut\s+", "", p.split(":")[0].strip()))
-    return names, inner
+    return names, inner, recv
 
 # proof hints of the bridges (calls of definitional axioms that live in the proving unit) and preconditions a bridge may assume (each a stated
 # assumption of DESIGN.md, not a fact about the function)
@@ -59,17 +60,26 @@ def bridge_text(stub, v):
     sig = t[kw:kw + m.start()] if m else t[kw:]
     pr = params_of(sig)
     if pr is None: return None
-    names, _ = pr
+    names, _, recv = pr
     sig2 = sig.replace("fn " + v.name, "fn vx_bridge_" + v.name, 1)
     contract = re.sub(r"//#[^\n]*", "", stub.contract or "").strip("\n")
     if not contract.strip(): return None
+    call = f"{v.name}({', '.join(names)})"
+    if recv:
+        # a method: the bridge is a free function that takes the receiver as its first parameter
+        ty = ("&" if recv.startswith("&") else "") + v.impl_of
+        sig2 = re.sub(r"\(\s*&?self\s*,?", "(vx_self: " + ty + (", " if names else ""), sig2, count=1)
+        contract = re.sub(r"\bself\b", "vx_self", contract)
+        call = f"vx_self.{v.name}({', '.join(names)})"
+    # the stub's name for the result
+    sig2 = re.sub(r"->\s*\(\w+\s*:", "-> (" + (stub.ret or "r") + ":", sig2, count=1)
     if v.name in ASSUMING:
         extra = ASSUMING[v.name][0]
         contract = (re.sub(r"^\s*requires\b", "requires " + extra + ",", contract, count=1) if re.match(r"\s*requires\b", contract) else "requires " + extra + ",\n" + contract)
     ret = re.search(r"->\s*\((\w+)\s*:", sig2)
     rn = ret.group(1) if ret else "r"
     hint = HINTS.get(v.name, "")
-    return f"{stub.attrs or ''}pub {sig2.rstrip()}\n{contract}\n{{ let {rn} = {v.name}({', '.join(names)}); proof {{ {hint} }} {rn} }}\n"
+    return f"{stub.attrs or ''}pub {sig2.rstrip()}\n{contract}\n{{ let {rn} = {call}; proof {{ {hint} }} {rn} }}\n"
 
 def main():
     units = sorted({u for p in registry.PROPS.values() for u in p.get("units", [])})
@@ -98,6 +108,22 @@ def main():
             b = Unit(tu.name, list(tu.items) + [Raw(bt, module=v.module)], tu.labels, macros=tu.macros, feature_sets=tu.feature_sets, header=tu.header, externs=tu.externs, rlimit=tu.rlimit)
             try:
                 r = run.run_unit_once(b, fs, tag="-bridge")
+                # specification functions of the stub's unit that the proving unit does not have: their definitions are copied in (the open ones
+                # bring their meaning; an uninterpreted one can only be named)
+                borrowed = []
+                for _ in range(4):
+                    missing = sorted({m for e in r["compile_errors"] for m in re.findall(r"cannot find function `(\w+)` in this scope", e.get("message") or "")} - set(borrowed))
+                    if not missing: break
+                    src_text = open(os.path.join(ROOT, "units", u + ".py")).read()
+                    defs = []
+                    for name in missing:
+                        mm = re.search(r"(?m)^(?:#\[cfg[^\n]*\]\s*)?pub (?:open|uninterp|closed) spec fn " + name + r"\b[^\n]*(?:\n(?![ \t]*(?:pub |//|#\[|\"\"\")).*)*", src_text)
+                        if mm: defs.append(mm.group(0)); borrowed.append(name)
+                    if not defs: break
+                    bt2 = "\n".join(defs) + "\n" + bt
+                    b = Unit(tu.name, list(tu.items) + [Raw(bt2, module=v.module)], tu.labels, macros=tu.macros, feature_sets=tu.feature_sets, header=tu.header, externs=tu.externs, rlimit=tu.rlimit)
+                    r = run.run_unit_once(b, fs, tag="-bridge")
+                if borrowed: rec["borrowed_vocabulary"] = borrowed
             except ExtractError as e:
                 rec["status"] = f"not bridged (extract: {str(e)[:80]})"; results.append(rec); continue
             text = open(r["path"]).read().split("\n")
